@@ -23,7 +23,7 @@ func init() {
 			"(e) the per-member loops of Prepare, Message and Aggregate are not left early on a missing account or zero signature (only on an error of a call); " +
 			"(f) validator indices, subcommittee indices, accounts and signatures are indexed consistently (index spaces), contributions and accounts are appended together; " +
 			"(g) the fork epoch returned by the altair/bellatrix/capella detail functions derives from the fetched value on the success path. " +
-			"Added with the third seeding round: (i) a member joins an account batch unless a nil/presence test of its own data fails (never on a set left behind by other members); (j) sync committee messages are scheduled for the result of syncCommitteeIndicesForEpoch. Added with the fourth seeding round: (k) as C14.k; (l) the controller never cancels by prefix; (e) also covers getAggregatorsSignatureData. Added with the fifth seeding round: (y) C17.i/h and C13.c (job closures, account refresh) are taken over for the duty-to-account join. Added with the sixth seeding round and the false-alarm regression: (y) C03.t is taken over (the Altair fork epoch includes its first slot). NOT decided: the window arithmetic for all chain parameters beyond the symbolic offsets, subcommittee and selection arithmetic, timing.",
+			"Added with the third seeding round: (i) a member joins an account batch unless a nil/presence test of its own data fails (never on a set left behind by other members); (j) sync committee messages are scheduled for the result of syncCommitteeIndicesForEpoch. Added with the fourth seeding round: (k) as C14.k; (l) the controller never cancels by prefix; (e) also covers getAggregatorsSignatureData. Added with the fifth seeding round: (y) C17.i/h and C13.c (job closures, account refresh) are taken over for the duty-to-account join. Added with the sixth seeding round and the false-alarm regression: (y) C03.t is taken over (the Altair fork epoch includes its first slot). Added with the eighth seeding round: (j, extended) syncCommitteeIndicesForEpoch reaches SyncCommitteeAccountsForEpoch and not ValidatingAccountsForEpoch. NOT decided: the window arithmetic for all chain parameters beyond the symbolic offsets, subcommittee and selection arithmetic, timing.",
 		Technique:   "AST loop-shape and loop-exit analysis, symbolic offset normalisation of slot-window bounds, guarded-subtraction queries, index-space analysis, sparse-slice detection, SSA provenance of signer arguments and returned fork epochs",
 		Rule:        "one obligation per loop, per bound, per subtraction, per signer argument/message field, per batch slice, per detail function",
 		Assumptions: []string{"SLOTS_PER_EPOCH >= 2 and EPOCHS_PER_SYNC_COMMITTEE_PERIOD >= 1 (used only to accept FirstSlotOfEpoch(e+1)-c, c<=2, as non-wrapping)"},
